@@ -986,26 +986,28 @@ var fractionRegex = regexp.MustCompile(`^([0-9]+)\s?[/]\s?([0-9]+)$`)
 
 func ParsePortionSpecific(input string) (*big.Rat, InterpreterError) {
 	var res *big.Rat
-	var ok bool
 
+	// the digit groups are always read in base ten (a leading zero is not an octal prefix)
 	percentMatch := percentRegex.FindStringSubmatch(input)
 	if len(percentMatch) != 0 {
 		integral := percentMatch[1]
 		fractional := percentMatch[2]
-		res, ok = new(big.Rat).SetString(integral + "." + fractional)
+		num, ok := new(big.Int).SetString(integral+fractional, 10)
 		if !ok {
 			return nil, BadPortionParsingErr{Reason: "invalid percent format", Source: input}
 		}
-		res.Mul(res, big.NewRat(1, 100))
+		// 10^(2+len(fractional)), which is always positive
+		den := new(big.Int).Exp(big.NewInt(10), big.NewInt(int64(2+len(fractional))), nil)
+		res = new(big.Rat).SetFrac(num, den)
 	} else {
 		fractionMatch := fractionRegex.FindStringSubmatch(input)
 		if len(fractionMatch) != 0 {
-			numerator := fractionMatch[1]
-			denominator := fractionMatch[2]
-			res, ok = new(big.Rat).SetString(numerator + "/" + denominator)
-			if !ok {
+			num, numOk := new(big.Int).SetString(fractionMatch[1], 10)
+			den, denOk := new(big.Int).SetString(fractionMatch[2], 10)
+			if !numOk || !denOk || den.Sign() == 0 {
 				return nil, BadPortionParsingErr{Reason: "invalid fractional format", Source: input}
 			}
+			res = new(big.Rat).SetFrac(num, den)
 		}
 	}
 	if res == nil {
